@@ -1,6 +1,7 @@
 """C05 (generated DBC = packed layout), the DBC side of C14 (oversize / variable-size bindings
 are rejected) and the layout / DBC / Python-codec part of C15 (declaration-permuted twins)."""
 import json
+import os
 import random
 import re
 
@@ -150,6 +151,10 @@ def parsed_signal(s):
 # ------------------------------------------------------------------ generator
 
 
+# bus names: also with dots, dashes and a common stem (a bus name is used as a file name)
+BUS_NAMES = ["b1", "b2", "b3", "chassis.front", "chassis.rear", "can.1", "can.2", "pt-can"]
+
+
 def gen_can_desc(rng, mode):
     """mode: 'fit' (<= 64 bits), 'aligned' (byte-aligned, big-endian allowed), 'edge' (57..200 bits),
     'var' (a variable-size field somewhere)"""
@@ -223,7 +228,7 @@ def gen_can_desc(rng, mode):
                     if scal and rng.random() < 0.4 and mode != "aligned":
                         blocks.append(f'    signal {f[0]} {{ mux_count: {rng.randint(1, 4)}, mux_signal: "{rng.choice(scal)[0]}", }},')
                 alias = f"as {name}x{k}" if (k or rng.random() < 0.3) else ""  # also structs bound under an alias only
-                bus = "" if rng.random() < 0.5 else f'    bus: "{rng.choice(["b1", "b2", "b3"])}",\n'
+                bus = "" if rng.random() < 0.5 else f'    bus: "{rng.choice(BUS_NAMES)}",\n'
                 dev = "" if rng.random() < 0.6 else f'    device: "{rng.choice(["ecu", "bms"])}",\n'
                 extra.append(f"impl can for {name} {alias} {{\n    id: {len(extra) + 1},\n{bus}{dev}" + "\n".join(blocks) + "\n}")
     d.extra = "\n".join(extra) + "\n"
@@ -337,6 +342,14 @@ def run(prop, tier, replay=None):
         # ---- read every generated file back
         files = {f["bus"]: f for f in io["files"]}
         exp = {b["bus"]: b["messages"] for b in m["buses"]}
+        # every bus has a file of its own: two buses written to one path would leave only the later one on disk
+        paths = [os.path.normpath(f["path"]) for f in io["files"]]
+        if len(set(paths)) != len(paths) or len(files) != len(io["files"]):
+            rep.cov["disagreements_checked"] += 1
+            rep.violation(dict(base, kind="bus-files-collide", paths=paths,
+                               what="two bus files of one generation share a path (or a bus appears twice): the file of one bus "
+                                    "would be overwritten by another's"))
+            continue
         if sorted(files) != sorted(exp):
             rep.cov["disagreements_checked"] += 1
             rep.violation(dict(base, kind="buses", expected=sorted(exp), what="set of bus files differs from the buses bound"))
@@ -390,6 +403,7 @@ def run(prop, tier, replay=None):
                                "what": "model layout differs between twins (contradicts theorem generate_twin)"},
                               no_input=True)
         check_codec_twins(rep, rng, tier)
+        check_describe_twins(rep, rng, tier)
         from . import canc
         canc.run_core(rep, "C15", tier, rng)
         # the C++ back end: permuted twins must give the same bytes, equal to the canonical ones, and decode them back
@@ -516,6 +530,41 @@ def check_codec_twins(rep, rng, tier):
             rep.violation({"kind": "twin-codec", "schema": d.text(), "twin": tw.text(), "struct": name, "value": mv,
                            "observed": [a, b],
                            "what": "Python codec bytes change when field declarations are permuted (ids fixed)"})
+
+
+def w_describe(case):
+    """`fcp describe`: the bit-field picture of a struct (TypeVisitor walks fields in ascending id)"""
+    from fcp.describe import describe
+    from fcp.specs.type import StructType
+    from .codec import _schema
+
+    try:
+        return {"text": describe(_schema(case["text"]), StructType(case["struct"]))}
+    except Exception as e:
+        return {"raised": type(e).__name__}
+
+
+def check_describe_twins(rep, rng, tier):
+    """the describe tool is one more reader of the field order: its picture of a struct must not change when the fields
+    are declared in another order"""
+    n = 150 if tier == "quick" else 2500
+    jobs, meta = [], []
+    for _ in range(n):
+        d = gen.gen_codec_desc(rng, max_structs=3, max_fields=5, depth=2)
+        tw = d.permuted(rng)
+        name = d.structs[-1][0]
+        jobs += [{"text": d.text(), "struct": name}, {"text": tw.text(), "struct": name}]
+        meta.append((d, tw, name))
+    res = run_cases("harness.dbc", "w_describe", jobs, timeout_s=20)
+    for i, (d, tw, name) in enumerate(meta):
+        a, b = res[2 * i], res[2 * i + 1]
+        rep.cov["evaluations"] += 1
+        rep.hist("twin_checks", "describe")
+        if a != b:
+            rep.cov["disagreements_checked"] += 1
+            rep.violation({"kind": "twin-describe", "schema": d.text(), "twin": tw.text(), "struct": name,
+                           "observed": [str(a)[:400], str(b)[:400]],
+                           "what": "the described encoding of a struct changes when its field declarations are permuted (ids fixed)"})
 
 
 def check_c_command(rep, rng, tier, descs, cases, mres):
